@@ -91,14 +91,9 @@ theorem exists_contain_of_chain : ∀ (shards : List Shard) (k : String), Bounds
 theorem destShard_total (g : Group) (k : String) (hc : BoundsChain g.Shards)
     (h0 : ∀ s, g.Shards.head? = some s → s.Min = "") : ∃ s, g.DestShard k = some s := by
   obtain ⟨s, hs, hcont⟩ := exists_contain_of_chain g.Shards k hc (fun s hs => by
-    rw [h0 s hs]; exact String.le_of_lt_or_eq (by
-      by_cases hk : k = ""
-      · exact Or.inr hk.symm
-      · left
-        have : "" ≤ k := by
-          rw [String.le_iff_toList_le]
-          exact List.nil_le _
-        exact String.lt_of_le_of_ne this (Ne.symm hk)))
+    rw [h0 s hs]
+    have := str_le_append "" k
+    simpa using this)
   unfold Group.DestShard
   have : (g.Shards.find? (·.Contain k)).isSome = true := by
     rw [List.find?_isSome]; exact ⟨s, hs, hcont⟩
